@@ -359,6 +359,17 @@ def eligibleAt (t : Step) (x : Ctx) : List (Addr × Nat) :=
         if b.avail && decide ((b.qos : Int) ≤ x.timeout) && price ≤ x.cap then some (pr, price) else none
       | _ => none)
 
+/-- the end blocker pauses a running context only when its consumer cannot pay the batch (C06, C09): it is a violation
+    when what the consumer held before the block, less everything it paid in this block, covers the batch's total -/
+def pausedAlthoughFunded (t : Step) (x : Ctx) : Viol :=
+  if !x.super then
+    let el := eligibleAt t x
+    let total := (el.map (·.2)).sum
+    let paid := ((paidInto t.pre.bank.bal t.pre.cfg.deposit t.pre.cfg.escrow t.effs).filter (·.1 == x.cons)).map (·.2) |>.sum
+    chk (!(el.length > 0 && el.length ≥ x.thr && paid + total ≤ t.pre.bal x.cons))
+      s!"context paused by the end blocker although its consumer could pay the batch ({total}, after paying {paid} of {t.pre.bal x.cons} in this block)"
+  else []
+
 /-- C06 / C07: requests issued in this end-of-block versus eligibility and pricing recomputed
     from the published text of the post-expiry bindings -/
 def issueLaw (t : Step) : Viol :=
@@ -377,13 +388,7 @@ def issueLaw (t : Step) : Viol :=
           chk (!t.post.reqs.any (fun q => q.1.ctx == c && q.2.reqH == t.pre.height)) "requests issued without advancing the batch counter" ++
           -- the end blocker pauses a running context only when its consumer cannot pay the batch: it is a violation when
           -- what the consumer held before the block, less everything it paid in this block, covers the batch's total
-          (if x.state == .running && x'.state == .paused && !x.super then
-             let el := eligibleAt t x
-             let total := (el.map (·.2)).sum
-             let paid := ((paidInto t.pre.bank.bal t.pre.cfg.deposit t.pre.cfg.escrow t.effs).filter (·.1 == x.cons)).map (·.2) |>.sum
-             chk (!(el.length > 0 && el.length ≥ x.thr && paid + total ≤ t.pre.bal x.cons))
-               s!"context paused by the end blocker although its consumer could pay the batch ({total}, after paying {paid} of {t.pre.bal x.cons} in this block)"
-           else [])
+          (if x.state == .running && x'.state == .paused then pausedAlthoughFunded t x else [])
         else
           let issued := sortReqIds ((t.post.reqs.filter (fun q => q.1.ctx = c ∧ q.1.batch = x'.batch)).map (·.1))
           let provsIssued := issued.filterMap (fun r => (Map.get t.post.reqs r).map (·.prov))
@@ -467,7 +472,8 @@ def lifecycle (t : Step) : Viol :=
         | .modstart c' _, .paused, .running => chk (c' == c) "start"
         | .kill c' _, _, .completed => chk (c' == c && x.rep) "kill"
         | .modkill c' _, _, .completed => chk (c' == c && x.rep) "kill"
-        | .endblock _, .running, .paused => chk (y.batch == x.batch) "pause for lack of funds advanced the batch counter"
+        | .endblock _, .running, .paused => chk (y.batch == x.batch) "pause for lack of funds advanced the batch counter" ++
+            pausedAlthoughFunded t x
         | _, a, b => [s!"illegal transition {repr a} -> {repr b}"]))
   ++ t.post.ctxs.flatMap (fun p => match Map.get t.pre.ctxs p.1 with
       | some _ => []
